@@ -163,6 +163,8 @@ def check(case):
                 continue
             w = cmp_da(exp[k], got[k], k)
             if w:
+                # the failing variable has some but not all of the reduced dimensions (region of known finding F32)
+                sig["var_lacks_some_reduced_dim"] = bool(rdims - set(obj[k].dims))
                 return {"case": case, "why": w, "sig": sig}
     else:
         w = cmp_da(exp, got, "result")
